@@ -204,3 +204,50 @@ top_k_prefix!(c11_top_2_prefix_order_3, 2, 3);
 top_k_prefix!(c11_top_2_prefix_order_4, 2, 4);
 top_k_prefix!(c11_top_2_prefix_order_5, 2, 5);
 top_k_prefix!(c11_top_4_returns_the_whole_ranking, 4, 3);
+
+macro_rules! top_k_prefix4 {
+    ($name:ident, $k:expr, $order:expr) => {
+        #[kani::proof]
+        #[kani::unwind(7)]
+        fn $name() {
+            let s: [f32; 4] = [kani::any(), kani::any(), kani::any(), kani::any()];
+            let d = [(7u64, s[0]), (3u64, s[1]), (5u64, s[2]), (1u64, s[3])];
+            let o: [usize; 4] = $order;
+            let full = Ix::slice_top_k_results(vec![d[0], d[1], d[2], d[3]], 4);
+            let got = Ix::slice_top_k_results(vec![d[o[0]], d[o[1]], d[o[2]], d[o[3]]], $k);
+            assert!(full.len() == 4 && got.len() == $k);
+            let mut i = 0;
+            while i + 1 < full.len() {
+                assert!(Ix::compare_scored_docs(&full[i], &full[i + 1]) == O::Less, "the full list is strictly ordered");
+                i += 1;
+            }
+            let mut i = 0;
+            while i < got.len() {
+                assert!(got[i].0 == full[i].0 && got[i].1.to_bits() == full[i].1.to_bits(), "top-k is the first k of the full ranking, whatever order the score table was iterated in");
+                i += 1;
+            }
+        }
+    };
+}
+// @check id=C11 tier=thorough cap=300 needs=slice_topk role=top_k_prefix_four_documents harness=c11_top_1_of_4_reversed,c11_top_1_of_4_rot1,c11_top_1_of_4_rot2,c11_top_1_of_4_rot3,c11_top_1_of_4_swap_ends,c11_top_1_of_4_swap_mid,c11_top_2_of_4_reversed,c11_top_2_of_4_rot1,c11_top_2_of_4_rot2,c11_top_2_of_4_rot3,c11_top_2_of_4_swap_ends,c11_top_2_of_4_swap_mid,c11_top_3_of_4_reversed,c11_top_3_of_4_rot1,c11_top_3_of_4_rot2,c11_top_3_of_4_rot3,c11_top_3_of_4_swap_ends,c11_top_3_of_4_swap_mid
+// @fns BM25Index::top_k_results (body verbatim, map parameter re-typed to a vector), BM25Index::compare_scored_docs
+// @bound four documents (ids 7, 3, 5, 1) with arbitrary f32 scores; top_k 1 / 2 / 3 under 6 iteration orders of the score table (reversed, three rotations, two transpositions) against the full ranking
+// @assume a hash map yields each key once, in some order
+top_k_prefix4!(c11_top_1_of_4_reversed, 1, [3, 2, 1, 0]);
+top_k_prefix4!(c11_top_1_of_4_rot1, 1, [1, 2, 3, 0]);
+top_k_prefix4!(c11_top_1_of_4_rot2, 1, [2, 3, 0, 1]);
+top_k_prefix4!(c11_top_1_of_4_rot3, 1, [3, 0, 1, 2]);
+top_k_prefix4!(c11_top_1_of_4_swap_ends, 1, [3, 1, 2, 0]);
+top_k_prefix4!(c11_top_1_of_4_swap_mid, 1, [0, 2, 1, 3]);
+top_k_prefix4!(c11_top_2_of_4_reversed, 2, [3, 2, 1, 0]);
+top_k_prefix4!(c11_top_2_of_4_rot1, 2, [1, 2, 3, 0]);
+top_k_prefix4!(c11_top_2_of_4_rot2, 2, [2, 3, 0, 1]);
+top_k_prefix4!(c11_top_2_of_4_rot3, 2, [3, 0, 1, 2]);
+top_k_prefix4!(c11_top_2_of_4_swap_ends, 2, [3, 1, 2, 0]);
+top_k_prefix4!(c11_top_2_of_4_swap_mid, 2, [0, 2, 1, 3]);
+top_k_prefix4!(c11_top_3_of_4_reversed, 3, [3, 2, 1, 0]);
+top_k_prefix4!(c11_top_3_of_4_rot1, 3, [1, 2, 3, 0]);
+top_k_prefix4!(c11_top_3_of_4_rot2, 3, [2, 3, 0, 1]);
+top_k_prefix4!(c11_top_3_of_4_rot3, 3, [3, 0, 1, 2]);
+top_k_prefix4!(c11_top_3_of_4_swap_ends, 3, [3, 1, 2, 0]);
+top_k_prefix4!(c11_top_3_of_4_swap_mid, 3, [0, 2, 1, 3]);
